@@ -4,6 +4,7 @@ package main
 // chosen API on a real connection and records everything observable about it.
 
 import (
+	"bytes"
 	"errors"
 	"fmt"
 	"io"
@@ -306,6 +307,17 @@ func (r *rfcReceiver) receive(wire []byte) (msgs []wireMsg, problem string) {
 			out, err := rfc7692Inflate(ms[i].Payload, dict)
 			if err != nil {
 				return nil, "RFC 7692 receiver cannot inflate the message: " + err.Error()
+			}
+			if r.bits >= 8 && r.bits <= 15 {
+				// a peer that keeps exactly the negotiated window (zlib inflateInit2(-bits)): no reference may reach further back
+				src := append(append([]byte(nil), ms[i].Payload...), 0x00, 0x00, 0xff, 0xff, 0x01, 0x00, 0x00, 0xff, 0xff)
+				out2, maxDist, ierr := inflateMaxDist(src, dict, 1<<26)
+				if ierr == nil && !bytes.Equal(out2, out) {
+					return nil, "the two reference inflaters disagree on this message"
+				}
+				if ierr == nil && maxDist > 1<<uint(r.bits) {
+					return nil, fmt.Sprintf("back-reference distance %d exceeds the negotiated window 2^%d: a peer keeping that window cannot inflate the message", maxDist, r.bits)
+				}
 			}
 			if r.takeover {
 				r.history = append(r.history, out...)
